@@ -57,6 +57,19 @@ let desc (m : msg) =
 
 let b2s b = if b then "1" else "0"
 
+(* canonical content text (C08): M(what;namehex:tc:item,item;...), leaf item "=hex", Message item nested *)
+let rec items_list = function INil -> [] | ICons (i, t) -> i :: items_list t
+let rec cct (m : msg) =
+  match m with Msg (w, fs) ->
+    "M(" ^ string_of_int (int_of_n w) ^
+    String.concat "" (List.map (fun (n, tc, r) ->
+      let its = match r with RInline i -> [i] | RArray l -> items_list l in
+      ";" ^ hex_of n ^ ":" ^ string_of_int (int_of_n tc) ^ ":" ^
+      String.concat "," (List.map (fun i -> match i with
+        | IFix b | IStr b | IRaw b -> "=" ^ hex_of b
+        | IMsg s -> cct s
+        | IOpaque _ -> "?") its)) (fields_list fs)) ^ ")"
+
 (* ---------- typed items *)
 let tc_of_letter t : n option =
   match t with
@@ -125,6 +138,14 @@ let () =
           | _ -> failwith ("bad op " ^ s) in
         Buffer.add_char st (if ok then '1' else '0')) ops;
       let m0 = regs.(0) and m1 = regs.(1) in
+      if String.length head > 0 && head.[0] = 'w' then begin
+        (* C08: the documented layout of the Message and its content, for harness/wire_h.cpp *)
+        Printf.printf "%d B %s\n" k (hex_of (spec_msg m0));
+        Printf.printf "%d CCT %s\n" k (cct (strip_msg m0));
+        (match unflatten (spec_msg m0) with
+         | Ok u -> if head <> "wn" && u <> rt m0 then Printf.printf "%d ORACLE FAIL model: unflatten (spec_msg m) <> rt m\n" k
+         | _ -> Printf.printf "%d ORACLE FAIL model: the parser model rejects spec_msg m\n" k)
+      end else
       let flat = flatten m0 in
       Printf.printf "%d S %s\n" k (Buffer.contents st);
       Printf.printf "%d M %s\n" k (desc m0);
